@@ -255,6 +255,9 @@ func (w *countWriter) Write(p []byte) (int, error) {
 		w.emptyCalls = 0
 	}
 	w.got = append(w.got, p...)
+	if len(w.got) > 1<<16 {
+		panic(spinPanic{}) // no operation of the alphabet produces that much output: the call will never end
+	}
 	return len(p), nil
 }
 
